@@ -15,16 +15,19 @@ def rkey(rec, version):
     return repr(S.canon_doc([rec.text()], version, split_headers=False)[0])
 
 
-def check_neighbourhoods(ctx, g, lines, version, prop="C11"):
+def check_neighbourhoods(ctx, g, lines, version, prop="C11", key_suffix=""):
     """every traversal collection / predicate vs the model; returns number of violations."""
     recs = [S.parse_line(l, version) for l in lines if not l.startswith("H") and not l.startswith("#")]
+
+    def viol(key, detail):
+        ctx.violation(key + key_suffix, detail, prop=prop)
     nb = E.neighbourhoods(recs, version)
     nviol = 0
     segnames = [r.pos[0] for r in recs if r.rt == "S"]
     for sn in segnames:
         s = g.segment(sn)
         if s is None:
-            ctx.violation("segment-missing", sn, prop=prop)
+            viol("segment-missing", sn)
             return 1
         for c in E.COLLS:
             want = sorted(rkey(recs[i], version) for i in nb[sn][c])
@@ -32,9 +35,8 @@ def check_neighbourhoods(ctx, g, lines, version, prop="C11"):
             ctx.count("collections_compared")
             if want != got:
                 kind = _edge_kind_of(recs, nb[sn][c], got, want)
-                ctx.violation("collection-differs/%s/%s" % (c, kind),
-                              "segment %s, %s:\n  model: %r\n  gfapy: %r\n  document: %r" % (sn, c, want, got, lines),
-                              prop=prop)
+                viol("collection-differs/%s/%s" % (c, kind),
+                              "segment %s, %s:\n  model: %r\n  gfapy: %r\n  document: %r" % (sn, c, want, got, lines))
                 nviol += 1
         # derived answers
         for end in ("L", "R"):
@@ -44,20 +46,19 @@ def check_neighbourhoods(ctx, g, lines, version, prop="C11"):
         for name, rs in (("neighbours_L", dl), ("neighbours_R", dr), ("neighbours", dl + dr)):
             r = call(ctx, name, lambda: [x.name for x in getattr(s, name)])
             if not r.ok:
-                ctx.violation("derived-raises/%s/%s" % (name, r.cls()), repr(lines), prop=prop)
+                viol("derived-raises/%s/%s" % (name, r.cls()), repr(lines))
                 nviol += 1
                 continue
             want = _neighbour_names(rs, sn, version)
             if sorted(r.value) != sorted(want) and sorted(set(r.value)) != sorted(set(want)):
-                ctx.violation("derived-differs/" + name, "segment %s: model %r gfapy %r doc %r" % (sn, want, r.value, lines),
-                              prop=prop)
+                viol("derived-differs/" + name, "segment %s: model %r gfapy %r doc %r" % (sn, want, r.value, lines))
                 nviol += 1
         for name, coll in (("containers", "edges_to_containers"), ("contained", "edges_to_contained")):
             r = call(ctx, name, lambda: [x.name for x in getattr(s, name)])
             want = sorted(set(_other_seg(recs[i], sn, version) for i in nb[sn][coll]))
             if not r.ok or sorted(set(r.value)) != want:
-                ctx.violation("derived-differs/" + name, "segment %s: model %r gfapy %r doc %r"
-                              % (sn, want, r.value if r.ok else r.cls(), lines), prop=prop)
+                viol("derived-differs/" + name, "segment %s: model %r gfapy %r doc %r"
+                              % (sn, want, r.value if r.ok else r.cls(), lines))
                 nviol += 1
     # edge predicates and ends
     ends = {i: (a, b) for a, b, i in E.dovetail_ends(recs, version)}
@@ -77,8 +78,8 @@ def check_neighbourhoods(ctx, g, lines, version, prop="C11"):
         got = ("L" if x.is_dovetail() else "") + ("C" if x.is_containment() else "") + ("I" if x.is_internal() else "")
         ctx.count("edge_predicates_compared")
         if got != kind:
-            ctx.violation("edge-kind-differs/%s-as-%s" % (kind, got or "none"), "%s classified %r, model %r"
-                          % (O.safe_str(x), got, kind), prop=prop)
+            viol("edge-kind-differs/%s-as-%s" % (kind, got or "none"), "%s classified %r, model %r"
+                          % (O.safe_str(x), got, kind))
             nviol += 1
             continue
         if kind == "L":
@@ -86,8 +87,7 @@ def check_neighbourhoods(ctx, g, lines, version, prop="C11"):
             fe, te = x.from_end, x.to_end
             got_ends = sorted([(fe.name, fe.end_type), (te.name, te.end_type)])
             if got_ends != sorted([a, b]):
-                ctx.violation("dovetail-ends-differ", "%s: from/to ends %r, model %r" % (O.safe_str(x), got_ends, sorted([a, b])),
-                              prop=prop)
+                viol("dovetail-ends-differ", "%s: from/to ends %r, model %r" % (O.safe_str(x), got_ends, sorted([a, b])))
                 nviol += 1
                 continue
             for (p, q_) in ((a, b), (b, a)):
@@ -97,14 +97,14 @@ def check_neighbourhoods(ctx, g, lines, version, prop="C11"):
                 else:
                     ok = oe.ok and (oe.value.name, oe.value.end_type) == q_
                 if not ok:
-                    ctx.violation("other_end-wrong", "%s: other_end(%r) = %r, model %r"
-                                  % (O.safe_str(x), p, (oe.value.name, oe.value.end_type) if oe.ok else oe.cls(), q_), prop=prop)
+                    viol("other_end-wrong", "%s: other_end(%r) = %r, model %r"
+                                  % (O.safe_str(x), p, (oe.value.name, oe.value.end_type) if oe.ok else oe.cls(), q_))
                     nviol += 1
             for (p, q_) in ((a[0], b[0]), (b[0], a[0])):
                 oth = call(ctx, "other", x.other, g.segment(p))
                 if not oth.ok or oth.value.name not in (q_, p if a[0] == b[0] else q_):
-                    ctx.violation("other-wrong", "%s: other(%s) = %r, model %s"
-                                  % (O.safe_str(x), p, oth.value.name if oth.ok else oth.cls(), q_), prop=prop)
+                    viol("other-wrong", "%s: other(%s) = %r, model %s"
+                                  % (O.safe_str(x), p, oth.value.name if oth.ok else oth.cls(), q_))
                     nviol += 1
     # graph-level lists
     for name, kind in (("dovetails", "L"), ("containments", "C")):
@@ -113,7 +113,7 @@ def check_neighbourhoods(ctx, g, lines, version, prop="C11"):
                       (version == "gfa2" and r.rt == "E" and E.classify_edge(r)["kind"] == kind))
         got = sorted(ckey(x, version) for x in getattr(g, name))
         if want != got:
-            ctx.violation("gfa-%s-differs" % name, "model %r gfapy %r" % (want, got), prop=prop)
+            viol("gfa-%s-differs" % name, "model %r gfapy %r" % (want, got))
             nviol += 1
     return nviol
 
